@@ -606,14 +606,26 @@ impl LuaIndex for LuaModuleIndex {
                     None => return,
                 };
                 node.file_ids.retain(|id| *id != file_id);
-                if node.file_ids.is_empty() && node.children.is_empty() {
-                    (node.parent, Some(module_id))
+                if node.file_ids.is_empty()
+                    && node.children.is_empty()
+                    && module_id != self.module_root_id
+                {
+                    // the module's own node is no longer needed either
+                    let parent = node.parent;
+                    self.module_nodes.remove(&module_id);
+                    (parent, Some(module_id))
                 } else {
                     (None, None)
                 }
             } else {
                 (None, None)
             };
+
+        // the name -> files table does not depend on the shape of the module tree
+        self.module_name_to_file_ids.retain(|_, file_ids| {
+            file_ids.retain(|id| *id != file_id);
+            !file_ids.is_empty()
+        });
 
         if parent_id.is_none() || child_id.is_none() {
             return;
@@ -641,28 +653,6 @@ impl LuaIndex for LuaModuleIndex {
                 self.module_nodes.remove(&id);
             } else {
                 break;
-            }
-        }
-
-        if !self.module_name_to_file_ids.is_empty() {
-            let mut module_name = String::new();
-            for (name, file_ids) in &self.module_name_to_file_ids {
-                if file_ids.contains(&file_id) {
-                    module_name = name.clone();
-                    break;
-                }
-            }
-
-            if !module_name.is_empty() {
-                let file_ids = match self.module_name_to_file_ids.get_mut(&module_name) {
-                    Some(ids) => ids,
-                    None => return,
-                };
-
-                file_ids.retain(|id| *id != file_id);
-                if file_ids.is_empty() {
-                    self.module_name_to_file_ids.remove(&module_name);
-                }
             }
         }
     }
